@@ -315,7 +315,7 @@ def run_protocol(ctx, rng):
     from vf.sim import ServerSim
     from vf.vloop import close_loop, new_loop
 
-    for trial in range(ctx.pick(40, 600) // ctx.nshards + 1):
+    for trial in range(ctx.pick(40, 4000) // ctx.nshards + 1):
         base = tempfile.mkdtemp(prefix="vf-c14p-")
         loop = new_loop()
         try:
@@ -357,7 +357,7 @@ def run_sequence(ctx, rng):
         {"tokens": {"good", "other"}, "max_size": LIMIT, "types": None, "delete": False},
         {"tokens": None, "max_size": LIMIT, "types": None, "delete": True},
     ]
-    for trial in range(ctx.pick(24, 400) // ctx.nshards + 1):
+    for trial in range(ctx.pick(24, 3000) // ctx.nshards + 1):
         cfg = cfgs[trial % len(cfgs)]
         base = tempfile.mkdtemp(prefix="vf-c14s-")
         try:
